@@ -191,7 +191,15 @@ pub struct World {
     /// (token, account) pairs that were ever approved / (owner, operator) pairs ever appointed (successful calls)
     pub hist_approved: Vec<(u32, usize)>,
     pub hist_oper: Vec<(usize, usize)>,
+    /// bit-level traces (C10): after every call the raw OwnershipBucket entries are read from storage
+    pub dump: bool,
+    pub dumps: Vec<String>,
 }
+
+/// set once by the C10 binary: traces carry the raw consecutive ownership buckets and are printed as `mkBTrace`
+pub static BTRACE: std::sync::atomic::AtomicBool = std::sync::atomic::AtomicBool::new(false);
+pub fn ids_in_item() -> u32 { stellar_tokens::non_fungible::consecutive::storage::IDS_IN_ITEM as u32 }
+pub fn items_in_bucket() -> u32 { stellar_tokens::non_fungible::consecutive::storage::ITEMS_IN_BUCKET as u32 }
 
 pub fn ids_in_bucket() -> u32 { stellar_tokens::non_fungible::consecutive::storage::IDS_IN_BUCKET as u32 }
 pub fn max_batch() -> u32 { stellar_tokens::non_fungible::consecutive::storage::MAX_TOKENS_IN_BATCH as u32 }
@@ -220,7 +228,8 @@ impl World {
         let addrs: Vec<Address> = (0..naddr).map(|_| Address::generate(&e)).collect();
         let mut w = World { e, id, fl, addrs, now: now0, now0, min_ttl, max_ttl, extra_ids: BTreeSet::new(),
                             touched: BTreeSet::new(), sample, steps: vec![], last: Obs::default(), ncalls: 0,
-                            hist_approved: vec![], hist_oper: vec![] };
+                            hist_approved: vec![], hist_oper: vec![],
+                            dump: BTRACE.load(std::sync::atomic::Ordering::Relaxed), dumps: vec![] };
         w.last = w.observe(&mut Rng::new(0));
         w
     }
@@ -362,6 +371,7 @@ impl World {
             if let Call::BatchMint(_, amt) = c { self.touched.insert(r + 1 - *amt); }
         }
         let o = self.observe(rng);
+        if self.dump && self.fl == Fl::Cons { let d = self.dump_buckets(o.next); self.dumps.push(d); }
         let outcome = if !ok { "Fail".to_string() } else { format!("(Ok {})", opt(ret.map(|v| n(v as u64)))) };
         let ct = c.coq();
         out.case(&format!("{}/{}/{}", self.fl.tag(), c.kind(), if ok { "ok" } else { "fail" }), &format!("{} {} {}", self.fl.tag(), ct, self.now));
@@ -378,8 +388,41 @@ impl World {
                 b(self.sample.is_none()), list(&self.steps))
     }
     pub fn flush(&mut self, out: &mut Out, desc: &str) {
-        if !self.steps.is_empty() { let k = self.steps.len(); out.trace(&format!("{}:{}", self.fl.tag(), desc), self.term(), k); }
+        if !self.steps.is_empty() {
+            let k = self.steps.len();
+            let term = if self.dump {
+                format!("mkBTrace ({}) (Build_bcfg {} {}) {}", self.term(), n(ids_in_item() as u64), n(items_in_bucket() as u64), list(&self.dumps))
+            } else { self.term() };
+            out.trace(&format!("{}:{}", self.fl.tag(), desc), term, k);
+        }
         self.steps.clear();
+        self.dumps.clear();
+    }
+
+    /// the raw `OwnershipBucket(i)` entries for i = 0 ..= next/IDS_IN_BUCKET + 1, read straight from the contract's
+    /// persistent storage: None = no entry, Some (number of words, non-zero words with their item index)
+    fn dump_buckets(&self, next: u32) -> String {
+        use stellar_tokens::non_fungible::consecutive::storage::NFTConsecutiveStorageKey;
+        let nb = next / ids_in_bucket() + 2;
+        let mut items: Vec<String> = vec![];
+        for i in 0..nb {
+            let e = self.e.clone();
+            let id = self.id.clone();
+            let r = std::panic::catch_unwind(std::panic::AssertUnwindSafe(|| {
+                e.as_contract(&id, || e.storage().persistent().get::<_, soroban_sdk::Vec<u32>>(&NFTConsecutiveStorageKey::OwnershipBucket(i)))
+            }));
+            let v = match r {
+                Ok(None) => "None".to_string(),
+                Ok(Some(words)) => {
+                    let nz: Vec<String> = words.iter().enumerate().filter(|(_, w)| *w != 0).map(|(k, w)| pair(&n(k as u64), &n(w as u64))).collect();
+                    format!("(Some ({}, {}))", n(words.len() as u64), list(&nz))
+                }
+                // an entry that is not a vector of words: an impossible length
+                Err(_) => format!("(Some ({}, []))", n(FAIL_N)),
+            };
+            items.push(pair(&n(i as u64), &v));
+        }
+        list(&items)
     }
 }
 
